@@ -109,14 +109,14 @@ AddTup(k, d) == [i \in 1..NC |-> k[i] + d[i]] \o <<>>
 \* per-note classification, in the order of CntNames (positions 1..6, 19, 39.. are filled by the caller)
 Flags(e) ==
   LET o == e.o
-      ma == e.hasp /\ MonoApplies(e.p, o)
-      da == IF ma THEN DiffAxes(e.p, o) ELSE {}
-      mono == ma /\ da # {}
-      ba == e.hasp /\ BrightApplies(e.p, o) /\ e.p.b # o.b
+      mono == e.hasp /\ MonoApplies(e.p, o)
+      da == IF mono THEN DiffAxes(e.p, o) ELSE {}
+      same == e.hasp /\ SameCfg(e.p, o) /\ LoudEq(e.p, o) /\ e.p.b = o.b
+      ba == e.hasp /\ BrightApplies(e.p, o)
   IN << 0, 0, 0, 0, 0, 0,
         B2I(ZeroApplies(o)), B2I(ModApplies(o)), B2I(~ModApplies(o) /\ ModAltered(o)),
         B2I(mono), B2I(da = {1}), B2I(da = {2}), B2I(da = {3}), B2I(da = {4}),
-        B2I(mono /\ CarrierDiff(e.p, o)), B2I(ma /\ da = {}), B2I(ba), B2I(ba /\ e.p.tl # o.tl),
+        B2I(mono /\ CarrierDiff(e.p, o)), B2I(same), B2I(ba), B2I(ba /\ e.p.tl # o.tl),
         0, B2I(e.model # o.tl),
         B2I(o.vm \in {0, 1}), B2I(o.vm = 2), B2I(o.vm = 3), B2I(o.vm = 4), B2I(o.vm = 5),
         B2I(o.alg = 0), B2I(o.alg = 1), B2I(o.alg = 2), B2I(o.alg = 3), B2I(o.alg = 4), B2I(o.alg = 5), B2I(o.alg = 6), B2I(o.alg = 7),
